@@ -37,6 +37,7 @@ type Contract struct {
 	FnParams map[string][]*Clause // assumed postconditions of function-typed parameters
 	Uses     []string             // lemmas assumed in this function's VCs
 	FnParamReq map[string][]*Clause // obligations at every call of a function-typed parameter
+	CallSites  map[string][]*Clause // obligations at every call of a named function
 	Trusted  bool // contract assumed at call sites, body not verified
 	Pure     bool
 	BV       bool
@@ -393,6 +394,24 @@ func (e *Engine) LoadContractFile(file, pkgPath string) error {
 				default:
 					return fail(fmt.Errorf("loop clause %q", w3))
 				}
+			case "callsite":
+				// callsite <FuncName> requires <expr>: an assertion checked at
+				// every call of that function made by the verified function
+				// (recv = receiver, a0.. = the other arguments, local
+				// variables visible)
+				fnm, r1 := splitWord(rest)
+				w, r2 := splitWord(r1)
+				if w != "requires" {
+					return fail(fmt.Errorf("callsite <func> requires <expr>"))
+				}
+				c, err := parseClause(r2)
+				if err != nil {
+					return fail(err)
+				}
+				if cur.CallSites == nil {
+					cur.CallSites = map[string][]*Clause{}
+				}
+				cur.CallSites[fnm] = append(cur.CallSites[fnm], c)
 			case "use":
 				// use <lemma>, ...: assume (separately proved) lemmas in this function's VCs
 				for _, u := range strings.Split(rest, ",") {
@@ -427,12 +446,29 @@ func (e *Engine) LoadContractFile(file, pkgPath string) error {
 				if err := parseHofClause(cur, rest); err != nil {
 					return fail(err)
 				}
-			case "calls":
+			case "calls", "loops":
 				cs, err := parseCallSpec(rest)
 				if err != nil {
 					return fail(err)
 				}
+				if word == "loops" {
+					cs.Many = true
+					cs.Site = cur.Name
+					if i := strings.LastIndex(cs.Site, "."); i >= 0 {
+						cs.Site = cs.Site[i+1:]
+					}
+				}
 				cur.Calls = append(cur.Calls, cs)
+			case "until":
+				if len(cur.Calls) == 0 || !cur.Calls[len(cur.Calls)-1].Many {
+					return fail(fmt.Errorf("until without loops"))
+				}
+				c, err := parseClause(rest)
+				if err != nil {
+					return fail(err)
+				}
+				cs := cur.Calls[len(cur.Calls)-1]
+				cs.Until = append(cs.Until, c)
 			case "where":
 				if len(cur.Calls) == 0 {
 					return fail(fmt.Errorf("where without calls"))
